@@ -244,6 +244,15 @@ opt-level = 2
         write_if_changed(&cfg.dir.join(&lay.file), &text)?;
         layouts.push(lay);
     }
+    // shard sources of another profile (or of an earlier run) must not be built along
+    if let Ok(rd) = std::fs::read_dir(&src_dir) {
+        for f in rd.filter_map(|e| e.ok()) {
+            let rel = format!("src/bin/{}", f.file_name().to_string_lossy());
+            if rel.ends_with(".rs") && !layouts.iter().any(|l| l.file == rel) {
+                let _ = std::fs::remove_file(f.path());
+            }
+        }
+    }
     Ok(Emitted { layouts })
 }
 
